@@ -20,6 +20,7 @@ def flip_some(rng, recs):
 
 
 def run(ctx):
+    gen.INTEGRAL[0] = True          # real-typed weights are integer-valued here: how fractional weights are rounded is C08's subject
     ctx.trusted = ['Coq 8.16.1 kernel; reversal / v theorems closed under the global context; symmetry theorems: standard real-number axioms',
                    'correspondence K-GRAPH (undirected: each edge appended to both endpoint lists, self-loop twice), K-E2E, K-UPD vs the extracted float model',
                    'not verified: rounding makes the symmetry of the affinity approximate in binary64 (oracle: 1e-10 relative to the largest entry)']
